@@ -106,6 +106,39 @@ D = {
            "a nonterminal whose definition contains a command, referenced from two places at different `||` levels"),
  "C17-2": ("src/bash.rs emitted top-level loop compares a command candidate with the unquoted word",
            "an earlier word with * ? [..] or a backslash at a point that expects a command"),
+ # ---- round 4
+ "C01-4": ("src/bash.rs emitted COMP_WORDBREAKS stripping: `${prefix##*$char}` became `${prefix#*\"$char\"}` (strips up to the first instead of the last occurrence)",
+           "a partially typed word that contains the same word-break character twice (`--color=fg=r`, `http://alpha:8`) with a non-empty COMP_WORDBREAKS"),
+ "C02-4": ("src/check.rs do_distribute_descriptions, Alternative arm: the branches share one pending-description slot, so only what the last branch left survives",
+           "`( … ) \"descr\"` around a sequence that starts with an alternative with a branch that cannot take the description and a last branch that does, followed by a plain literal"),
+ "C03-4": ("src/dfa.rs DFA::minimize skips the partition refinement unless two states have the same acceptance and the same outgoing (input, target) pairs",
+           "states that are equivalent only through targets that are themselves different-but-equivalent states (two parallel chains)"),
+ "C04-4": ("src/tables.rs / dfa.rs: the map from a transition's literal to its id in the emitted literal list is keyed by the text alone instead of (text, description)",
+           "the same literal text at two states with different descriptions (or described once, bare once); fish, zsh, pwsh tables"),
+ "C05-4": ("src/parse.rs flatten_expr: the Alternative and Fallback arms merged into one that always rebuilds an Alternative",
+           "a `||` inside a word one of whose branches is itself a juxtaposition (`--option=(pri<N> || secondary)`)"),
+ "C06-4": ("src/main.rs: byte columns converted to character columns by slicing the source line at the byte column of the span end",
+           "a parse error at a statement that begins with a non-ASCII character (BOM, typographic quote): the slice lands inside the character and panics"),
+ "C07-4": ("src/bash.rs: the top-level per-state literal table is keyed by the literal text and the table string wrapped in single quotes",
+           "a literal containing an apostrophe used as a whole word at top level (closes the outer quotes; `$HOME` and backticks then expand)"),
+ "C08-4": ("src/check.rs get_nonterminals_resolution_order: after the roots only one more traversal is started, from the first unreached vertex",
+           "a cycle not reachable from any acyclic definition, one of whose members also refers to an acyclic definition that hash order puts first"),
+ "C09-4": ("src/bash.rs write_subword_fn: the loop variable of the within-word completion loop renamed to `fallback_level` (global in bash: overwrites the caller's `||` level)",
+           "a within-word expression in a non-last `||` branch, a typed prefix nothing of that level extends, the wanted candidate in the next branch"),
+ "C11-4": ("src/check.rs from_grammar: the loop that expands definitions into one another moved before the two specialisation passes",
+           "a nonterminal with a plain and a target-shell definition referred to from inside another definition"),
+ "C12-4": ("src/bash.rs: the mode word `matches` of `_<cmd>_subword` renamed to `match` at the call and the early return, not in the stop-rule guard",
+           "a prefix chain among within-word values, a fully typed value that is not the longest, and another word after it"),
+ "C13-4": ("src/parse.rs terminal_opt_description_expr reuses an existing literal node with the same text / description (the key leaves out the span)",
+           "a diagnostic located at a literal (adjacent literals inside a word) whose text already occurs earlier in the file"),
+ "C14-4": ("src/parse.rs nonterm_def_statement: `alt((tag(\"::=\"), tag(\"=\")))` became `opt(tag(\"::\"))` + `is_a(\"=\")` (takes the longest run of `=`)",
+           "a definition whose body starts with a literal beginning with `=`, laid out with no blank after the operator"),
+ "C15-4": ("src/main.rs: the 'Unused specialization' warning is printed with println! instead of eprintln!",
+           "a definition for the target shell that no statement refers to; script emitted to stdout"),
+ "C16-4": ("src/dfa.rs do_to_dot: transitions whose target is DEAD_STATE_ID (= 0, after renumbering the start state) are skipped",
+           "an automaton (top level or within a word) with a transition back into its start state (`a [b a]...`)"),
+ "C17-4": ("src/bash.rs: the candidates of a command are ordered by `sort -rk2` instead of `sort -nrk2,2 -rk3` (lengths compared as text)",
+           "a command inside a word followed by more of the word, two candidates one a prefix of the other, the longer one of 10+ characters"),
 }
 
 
